@@ -1,6 +1,7 @@
 package props
 
 import (
+	"bytes"
 	"errors"
 	"fmt"
 	"hash/crc32"
@@ -52,7 +53,7 @@ type C13 struct{}
 
 func (C13) ID() string { return "C13" }
 
-var c13Paths = []string{"rowgroups", "reader", "typed", "pages", "seek-into", "seek-past-back", "read-dictionary", "value-reader"}
+var c13Paths = []string{"rowgroups", "reader", "typed", "pages", "seek-into", "seek-past-back", "read-dictionary", "value-reader", "async-seek-into"}
 
 func (C13) Info() core.Info {
 	return core.Info{
@@ -229,7 +230,7 @@ func (r *c13run) enumerate() *core.Violation {
 				if !r.applicable(k) {
 					continue
 				}
-				if path == "seek-into" {
+				if path == "seek-into" || path == "async-seek-into" {
 					// a row inside the affected range
 					lo, hi := r.taint(p)
 					k.SeekTo = lo + int64(rng.Uint64()%uint64(hi-lo))
@@ -396,6 +397,53 @@ func (r *c13run) run1(k C13Case) (v *core.Violation) {
 		}
 		if n > 0 && !p.Dict {
 			return core.Violate(cls("rows-from-corrupt-page"), "after SeekToRow(%d), %d rows were delivered before the error", k.SeekTo, n)
+		}
+	case "async-seek-into":
+		// asynchronous read mode: rows up to the corrupted page are read, so the
+		// page goroutine of the column has met the corruption while reading ahead;
+		// then a seek into that page. The library's goroutines read from a plain
+		// byte reader (the simulated file's event log is not theirs to write).
+		fo := sc.F
+		fo.Async, fo.Optimistic = true, false
+		af, err := parquet.OpenFile(bytes.NewReader(img), int64(len(img)), fo.Options()...)
+		if err != nil {
+			return core.Violate(cls("open-failed"), "OpenFile failed although only a page body was altered: %v", err)
+		}
+		rows := af.RowGroups()[p.RowGroup].Rows()
+		defer rows.Close()
+		if lo > 1 && !p.Dict {
+			// all but the last row before the page: completing the last row of a page
+			// looks at the next page, which reports the corruption at once
+			buf := make([]parquet.Row, 1)
+			for got := int64(0); got < lo-1; {
+				m, err := rows.ReadRows(buf)
+				got += int64(m)
+				if err != nil {
+					if isCorrupted(err) {
+						return nil // reported already while reading ahead
+					}
+					return core.Violate(cls("wrong-error"), "reading the %d rows before the corrupted page: %v", lo, err)
+				}
+				if m == 0 {
+					break
+				}
+			}
+		}
+		if err := rows.SeekToRow(k.SeekTo); err != nil {
+			if isCorrupted(err) {
+				return nil
+			}
+			return core.Violate(cls("wrong-error"), "SeekToRow(%d): %v", k.SeekTo, err)
+		}
+		n, wrong, err := readFrom(rows, k.SeekTo)
+		if wrong != nil {
+			return wrong
+		}
+		if err == nil || errors.Is(err, io.EOF) {
+			return core.Violate(cls("not-reported"), "asynchronous mode: %d rows read, SeekToRow(%d) into the corrupted page, then reading to the end delivered %d rows and ended with %v", lo, k.SeekTo, n, err)
+		}
+		if !isCorrupted(err) {
+			return core.Violate(cls("wrong-error"), "after SeekToRow(%d): error does not identify corruption: %v", k.SeekTo, err)
 		}
 	case "seek-past-back":
 		rows := rg.Rows()
